@@ -6,7 +6,7 @@
 namespace Rpcx.Atomic
 
 inductive Fn
-  | clientSend | clientInput | clientCall | clientClose
+  | clientSend | clientInput | clientCall | clientClose | clientSendRaw
   | serverShutdown | serverClose | serverProcessOne
 deriving DecidableEq, Repr
 
